@@ -129,12 +129,15 @@ func (r *Runner) Do(o Op) (obs Obs) {
 		panic("bad op " + o.K)
 	}
 	n, d, s, ok := r.M.VerifWalk()
+	if n > 1<<20 { // a cyclic list (the hook gives up at 2^26): any such count is a mismatch; keep the Gallina nat small
+		n, d = 1<<20, 0
+	}
 	return Obs{Out: out, Nodes: n, Deleted: d, SumRef: s, HeadOK: ok, Len: r.M.Len()}
 }
 
 // CaseTimeout bounds one whole history (some tens of calls, microseconds each
 // on the unchanged tree: the bound is >= 10^4 times the typical duration).
-var CaseTimeout = 4 * time.Second
+var CaseTimeout = 1500 * time.Millisecond
 
 // RunGuarded executes a history on a fresh map in its own goroutine; before(i)
 // runs ahead of the i-th call.  It stops after the first panic.  A history
@@ -177,7 +180,11 @@ func runOnce(ops []Op, before func(i int)) ([]Obs, bool) {
 		close(out)
 	}()
 	var res []Obs
-	timer := time.NewTimer(CaseTimeout)
+	limit := CaseTimeout
+	if before != nil {
+		limit *= 10 // forced garbage collections between the calls take milliseconds each
+	}
+	timer := time.NewTimer(limit)
 	defer timer.Stop()
 	for {
 		select {
@@ -433,4 +440,60 @@ func RandomChurn(r *prng.R, n, nkeys, slots int) []Op {
 		ops = append(ops, Op{K: "L"}, Op{K: "F"})
 	}
 	return ops
+}
+
+// FillDrain returns a well-formed history of fill/drain rounds: the (mostly
+// empty) map is asked for First, filled with 1..nkeys entries, iterators are
+// opened at the head and some advanced a little, then the entries are removed
+// in insertion order -- so iterators get parked on removed head entries --
+// with First / HasNext / Next in between and iterators closed *in place*
+// (not drained) at arbitrary points; at the end of a round every iterator is
+// closed.  Whatever a round leaves behind accumulates over the rounds.
+func FillDrain(r *prng.R, rounds, nkeys, slots int) []Op {
+	s := NewSim(slots)
+	var ops []Op
+	for round := 0; round < rounds; round++ {
+		if r.Chance(1, 2) {
+			ops = append(ops, Op{K: "F"}) // between rounds the map is usually empty
+		}
+		m := 1 + r.Intn(nkeys)
+		for k := 1; k <= m; k++ {
+			ops = append(ops, s.Add(int64(k)))
+		}
+		for sl, nit := 0, r.Intn(slots+1); sl < nit; sl++ {
+			ops = append(ops, s.Open(sl))
+			for j := r.Intn(3); j > 0; j-- {
+				ops = append(ops, Op{K: "N", A: s.Slot[sl]})
+			}
+		}
+		keep := 0
+		if r.Chance(1, 4) {
+			keep = r.Intn(m + 1) // sometimes the map is not drained completely
+		}
+		for k := 1; k <= m-keep; k++ {
+			ops = append(ops, s.Remove(int64(k)))
+			if r.Chance(1, 2) {
+				ops = append(ops, Op{K: "F"})
+			}
+			if open := s.OpenSlots(); len(open) > 0 && r.Chance(1, 2) {
+				sl := prng.Pick(r, open)
+				switch r.Intn(3) {
+				case 0:
+					ops = append(ops, s.Close(sl))
+				case 1:
+					ops = append(ops, Op{K: "H", A: s.Slot[sl]})
+				default:
+					ops = append(ops, Op{K: "N", A: s.Slot[sl]})
+				}
+			}
+		}
+		for _, sl := range s.OpenSlots() {
+			ops = append(ops, s.Close(sl))
+		}
+		ops = append(ops, Op{K: "L"})
+		for k := m - keep + 1; k <= m; k++ { // the entries that were kept go before the next round
+			ops = append(ops, s.Remove(int64(k)))
+		}
+	}
+	return append(ops, Op{K: "F"}, Op{K: "L"})
 }
